@@ -88,6 +88,10 @@ def run(ctx, rep) -> None:
             rep.check(not plan, "C11.R2", f"refused claim {kinds} never plans", "planning reached after a refused claim" if plan else "returns before planning", site[0], site[1], disc=f"noplan:{kinds}")
             if pushes:
                 cl = {str(e.get("cls")) for e in pushes}
+                expected = "CancelStage" if any("choice" in k for k in kinds) else "StartStage"
+                rep.check(cl == {expected}, "C11.R2", f"refused {'choice' if expected == 'CancelStage' else 'mutex'} claim takes its own branch",
+                          f"a refused {'deferred-choice' if expected == 'CancelStage' else 'mutex'} claim must {'cancel the stage' if expected == 'CancelStage' else 're-queue StartStage (the stage runs after the holder finishes)'}; path pushes {sorted(cl)}",
+                          pushes[0].site[0], pushes[0].site[1], disc=f"branch:{expected}:{sorted(cl)}")
                 if cl == {"StartStage"}:
                     ok = all(e.get("delayed") in ("yes", "maybe") and e.get("stage_id") == "message.stage_id" for e in pushes)
                     rep.check(ok, "C11.R2", "mutex loser re-queues itself with a delay", f"pushes: {[(e.get('cls'), e.get('delayed'), e.get('stage_id')) for e in pushes]}", pushes[0].site[0], pushes[0].site[1], disc="requeue")
@@ -98,12 +102,35 @@ def run(ctx, rep) -> None:
                     rep.fail("C11.R2", "refused claim continuation", f"unexpected messages after a refused claim: {sorted(cl)}", pushes[0].site[0], pushes[0].site[1], disc=f"unexpected:{sorted(cl)}")
             else:
                 rep.fail("C11.R2", "refused claim continuation", "a refused claim neither re-queues nor cancels the stage: it is stranded NOT_STARTED", site[0], site[1], disc="stranded")
+    # a stage that has a mutex key / belongs to a choice group takes the corresponding claim in its claim transaction
+    need = {"mutex": "stage.mutex_key", "choice": "stage.deferred_choice_group"}
+    counts = {"mutex": 0, "choice": 0}
+    missing = {}
+    for p in r.paths:
+        tl = timeline(p)
+        g = {}
+        for e in p.trace:
+            if e.kind == "guard":
+                g[str(e.get("raw"))] = e.get("truth")
+        for i, e in enumerate(tl):
+            if e.kind == "store_stage" and e.get("expected") is not None:
+                claims_here = [str(x.get("key")) for x in tl[:i] if x.kind == "claim" and x.get("tid") == e.get("tid")]
+                for kind, gtext in need.items():
+                    if g.get(gtext) is True:
+                        counts[kind] += 1
+                        if not any(kind + ":" in k for k in claims_here):
+                            missing[kind] = e.site
+    for kind in need:
+        rep.check(kind not in missing and counts[kind] > 0, "C11.R1", f"a stage with a {kind} key takes the {kind} claim before it is claimed RUNNING",
+                  f"{counts[kind]} claiming path(s) with {need[kind]} set, all with the claim row" if kind not in missing else f"a path claims the stage although {need[kind]} is set and no {kind} claim row was taken: two siblings can both pass the read-then-check fast path",
+                  (missing.get(kind) or ("src/stabilize/handlers/start_stage/handler.py", 0))[0], (missing.get(kind) or ("", 0))[1], disc=f"takes:{kind}")
     rep.floor("claim events on paths", n_claims, 10)
     rep.floor("refused-claim paths", n_block, 2)
     # a False result raises inside the body (source shape)
     fi = prog.func("stabilize.handlers.start_stage.handler", "StartStageHandler._start_if_ready")
-    raising = [n for n in ast.walk(fi.node) if isinstance(n, ast.If) and "not txn.acquire_claim(" in norm(n.test) and any(isinstance(s, ast.Raise) for s in n.body)]
-    rep.check(len(raising) == 2, "C11.R1", "a refused claim raises inside the transaction body (rollback)", f"{len(raising)} guarded raises", fi.file, raising[0].lineno if raising else fi.node.lineno, disc="raise")
+    raising = [n for n in ast.walk(fi.node) if isinstance(n, ast.If) and "txn.acquire_claim(" in norm(n.test) and "not " in norm(n.test) and any(isinstance(s, ast.Raise) for s in n.body)]
+    n_acq = sum(1 for n in ast.walk(fi.node) if isinstance(n, ast.Call) and isinstance(n.func, ast.Attribute) and n.func.attr == "acquire_claim")
+    rep.check(len(raising) >= 1 and len(raising) == n_acq, "C11.R1", "a refused claim raises inside the transaction body (rollback)", f"{len(raising)} guarded raise(s) for {n_acq} acquire_claim call(s)", fi.file, raising[0].lineno if raising else fi.node.lineno, disc="raise")
 
     # ---- R3 -------------------------------------------------------------------------------------
     ac = prog.func("stabilize.persistence.sqlite.transaction", "AtomicTransaction.acquire_claim")
